@@ -394,6 +394,10 @@ def run(chk, prog):
     closure = driver_closure(prog, lib, coverage, W)
     chk.extra["state_closure_of_the_driver_dump"] = sorted(closure)
     n3 = 0
+    # ---- R6: containers dumped element by element are dumped in full ---------------------------------
+    from . import c09_full
+    n6 = c09_full.rule_R6(chk, lib, W, None)
+    chk.floor("R6", n6, 4)
     for cls, (wfn, rfn, wi, ri) in sorted(coverage.items()):
         if cls not in closure:
             continue
